@@ -41,6 +41,22 @@ def _check_pair(e, x, y, rx, ry, scenario):
         e.fail("hash-changed", scenario=scenario)
 
 
+def _foreign_ids(data: Any, counter: list[int] | None = None) -> Any:
+    counter = counter if counter is not None else [0]
+    if isinstance(data, dict):
+        out = {}
+        for k, v in data.items():
+            if k == "id" and "content_id" in data:
+                counter[0] += 1
+                out[k] = f"n{counter[0]}"
+            else:
+                out[k] = _foreign_ids(v, counter)
+        return out
+    if isinstance(data, list):
+        return [_foreign_ids(v, counter) for v in data]
+    return data
+
+
 def make_origin_harness(bases):
     def harness(e):
         reset_all()
@@ -59,11 +75,21 @@ def make_origin_harness(bases):
             ry = with_origin(base, pos[q], k1)
         # the registry history must not matter: x may be unregistered before y is built, in which
         # case y's nodes take over the ids of x's nodes wherever their id pre-images agree
-        history = e.pick(["both-registered", "x-detached-before-y-is-built", "x-root-replaced-by-y"] if mode == "same-position" else ["both-registered"], "registry_history")
+        history = e.pick(["both-registered", "x-detached-before-y-is-built", "x-root-replaced-by-y", "y-loaded-with-foreign-ids"] if mode == "same-position" else ["both-registered"], "registry_history")
         x = build(rx)
         if history == "x-detached-before-y-is-built":
             x.detach()
             y = build(ry)
+        elif history == "y-loaded-with-foreign-ids":
+            # y comes out of as_obj() with ids assigned by another producer ("n1", "n2", ...):
+            # ids are no part of the relation
+            y0 = build(ry)
+            data = _foreign_ids(y0.as_dict())
+            if e.flag("original_of_y_detached"):
+                y0.detach()
+            y = type(y0).as_obj(data)
+            if y is y0:
+                e.fail("harness:foreign-id-load-returned-original")
         elif history == "x-root-replaced-by-y":
             x.detach()
             y = build(ry)
